@@ -45,5 +45,9 @@ for pid in ids:
         t = t[:i0] + "Only report completion after patch.diff, demo_break.py and meta.json are final; make sure demo_break.py always terminates (use os._exit if necessary) within 60 seconds.\n\n" + t[i1:]
     t = t.replace("a previous engineer already produced this change for the same property; yours must use",
                   "previous engineers already produced changes for the same property; yours must use")
+    if os.environ.get("SEED_HINTS"):      # SEED_HINTS=<hints file>:<index>  - one extra line that steers the author (a clause, a file, a situation)
+        hf, hi = os.environ["SEED_HINTS"].rsplit(":", 1)
+        hint = json.load(open(os.path.join(VERIF, "tools", hf)))[pid][int(hi)]
+        t = t.replace("Deliverables (all inside", "FOCUS: %s.\n\nDeliverables (all inside" % hint, 1)
     open("/tmp/agent%s_prompt_%s.txt" % (rnd, pid), "w").write(t)
 print("ok", len(ids))
